@@ -211,6 +211,40 @@ impl DB {
         self.force_memtable_compaction().is_ok()
     }
 
+    /// Verification hook: pretend that a background compaction is (not) scheduled, which keeps the background thread idle.
+    pub fn hold_background_for_verif(&self, hold: bool) {
+        self.guarded_fields.lock().background_compaction_scheduled = hold;
+    }
+
+    /// Verification hook: write the active memtable to a level-0 table on the calling thread (no level choice, no background
+    /// thread), as the backlog of a database whose writers outrun compaction.
+    pub fn flush_to_level_zero_for_verif(&self) -> bool {
+        let mut guard = self.guarded_fields.lock();
+        let fresh: Arc<Box<dyn MemTable>> = Arc::new(Box::new(SkipListMemTable::new()));
+        let full = self.memtable_ptr.swap(fresh);
+        let mut change_manifest = VersionChangeManifest::default();
+        if DB::convert_memtable_to_file(&self.generate_portable_state(), &mut guard, full, None, &mut change_manifest).is_err() {
+            return false;
+        }
+        change_manifest.wal_file_number = Some(guard.curr_wal_file_number);
+        VersionSet::log_and_apply(&mut guard, &mut change_manifest).is_ok()
+    }
+
+    /// Verification hook: number of level-0 files of the current version.
+    pub fn num_level_zero_files_for_verif(&self) -> usize {
+        self.guarded_fields.lock().version_set.num_files_at_level(0)
+    }
+
+    /// Verification hook: schedule a background compaction if one is needed.
+    pub fn schedule_compaction_for_verif(&self) -> bool {
+        let mut guard = self.guarded_fields.lock();
+        if DB::should_schedule_compaction(&self.generate_portable_state(), &mut guard) {
+            self.compaction_worker.schedule_task(TaskKind::Compaction);
+            return true;
+        }
+        false
+    }
+
     /// Verification hook: a compaction state opens `n` output files one after the other (as a table compaction whose output
     /// is split does); returns (numbers of the outputs, table numbers protected from obsolete-file removal afterwards).
     pub fn compaction_outputs_for_verif(&self, n: usize) -> (Vec<u64>, Vec<u64>) {
